@@ -48,6 +48,12 @@ Theorem C10_consumers_covered_partial : forall n s later c, forallb is_reset lat
 Proof. exact consumers_covered. Qed.
 Print Assumptions C10_consumers_covered_partial.
 
+(* the tag the scan must find at a consumer's call site resolves to a generator of the consumer's kind *)
+Theorem C10_consumer_tags_partial : forall c,
+  exists g, gen_of_tag (consumer_tag c) = Some g /\ tag_of_gen g = consumer_tag c /\ (0 <= consumer_tag c <= 4).
+Proof. exact consumer_tag_resolves. Qed.
+Print Assumptions C10_consumer_tags_partial.
+
 (* the call-site scan passes exactly when every site resolves to a seeded generator (tags 0..4) *)
 Theorem C10_scan_rule_partial : forall n s later tags, forallb is_reset later = true -> (0 < n)%nat ->
   scan_ok (run (init n) (setup (Some s) ++ Reset :: later)) tags = forallb (fun t => (0 <=? t) && (t <=? 4)) tags.
